@@ -12,3 +12,18 @@ Print Assumptions C15_quiet_excludes_capture.
 Theorem C15_castling_is_quiet : forall p ks, quiet_spec p (Castle ks) = true /\ captures_spec p (Castle ks) = false.
 Proof. intros p ks. split; reflexivity. Qed.
 Print Assumptions C15_castling_is_quiet.
+
+(* ---- the predicates as coded tell what playing the move does ----
+   For every well-formed representation state (RepRefineLegal.rep_ok) and every pseudo-legal - hence every legal - move of
+   the rules, Position::move_is_capture and Position::move_is_quiet (algorithmic models in Engine/Classify.v, tied to the C++
+   by the three-way correspondence of checks/c15.py) answer exactly Rules.is_capture / "no capture and no promotion". *)
+From CV Require Import Engine.RepAbs Engine.RepRefineLegal Engine.ClassifyProofs.
+
+Theorem C15_capture_and_quiet_tell_the_truth :
+  forall (s : rep) (m : move), rep_ok s -> pseudo_legal (rep_abs s) m = true ->
+    move_is_capture_alg s (enc m) = captures_spec (rep_abs s) m /\ move_is_quiet_alg s (enc m) = quiet_spec (rep_abs s) m.
+Proof. exact classify_capture_quiet. Qed.
+Print Assumptions C15_capture_and_quiet_tell_the_truth.
+
+(* C15_gives_check_partial: the third predicate (move_gives_check_alg = gives_check_spec) is not proved; it rests on the
+   three-way correspondence (engine / spec / algorithmic model) on every legal move of generated positions. *)
